@@ -437,17 +437,17 @@ fn run(tier: Tier) -> Sink {
     let levels: Vec<f64> = mc::levels(tier).to_vec();
     let mut jobs = vec![];
     for f32_ in [false, true] {
-        for x in seqs(&A_DY, 2, tier.pick(3, 4)) {
+        for x in seqs(&A_DY, 2, tier.pick(3, 5)) {
             jobs.push(Job::Mean(x, f32_));
         }
-        for x in seqs(&A_ND, 2, tier.pick(2, 3)) {
+        for x in seqs(&A_ND, 2, tier.pick(2, 4)) {
             jobs.push(Job::Mean(x, f32_));
         }
         // positive samples with a wide dynamic range for geometric / harmonic
-        for x in seqs(&[0.0009765625, 0.25, 1.0, 8.0, 1000.0, 3.7], 2, tier.pick(3, 4)) {
+        for x in seqs(&[0.0009765625, 0.25, 1.0, 8.0, 1000.0, 3.7], 2, tier.pick(3, 5)) {
             jobs.push(Job::Mean(x, f32_));
         }
-        let pa = seqs(&BV, 2, tier.pick(2, 3));
+        let pa = seqs(&BV, 2, tier.pick(2, 4));
         for a in &pa {
             for b in &pa {
                 jobs.push(Job::Pair(a.clone(), b.clone(), f32_));
@@ -457,7 +457,7 @@ fn run(tier: Tier) -> Sink {
     for n in [99_000usize, 100_000, 100_001, 101_500, 250_000] {
         jobs.push(Job::Large(n));
     }
-    for n in 4..=tier.pick(60, 120) {
+    for n in 4..=tier.pick(60, 300) {
         jobs.push(Job::Counts(n));
         jobs.push(Job::Quant(n));
     }
